@@ -30,7 +30,12 @@ def plan(tier):
     pl += [(PG.reusable_resize(2, 3, None), 2, KP), (PG.reusable_resize(1, 3, None), 2, KP)]
     pl += [(PG.cancel_run_then_resize(8, 1, 2), 1, PT), (PG.cancel_run_then_resize(6, 2, 1), 0, PT)]
     pl += [(PG.resize_vs_callback_submit(1, 3), 1, PT), (PG.resize_vs_callback_submit(2, 1), 1, PT)]
+    # idle timers firing at the instant "spawn" of a growing resize: refused (lock held), the
+    # worker stays; judged a fifth of a period after the call returned
+    TS = dict(kinds=("T",), t_when="_adjust_process_count", t_scope="worker")
+    pl += [(PG.grow_then_rest(2, 4), 1, TS), (PG.grow_then_rest(1, 3), 1, TS), (PG.grow_then_rest(2, 3), 1, TS)]
     if tier == "thorough":
+        pl += [(PG.grow_then_rest(2, 4), 2, TS)]
         TR = dict(kinds=("T",), t_when="_resize", t_scope="worker", t_cur="parent:main")
         pl += [(PG.reusable_resize(2, 1, 0.05), 2, TR),
                (PG.reusable_resize(3, 2, 0.05), 2, Z)]
